@@ -53,6 +53,9 @@ type DCVictim struct {
 type DCBody struct {
 	Victims       []DCVictim `json:"victims"`
 	BlockerHoldMs int        `json:"blocker_hold_ms"`
+	// ZeroIdBystander: bystander 0 announces the all-zero client id (what a connection that never
+	// announced anything carries internally)
+	ZeroIdBystander bool       `json:"zero_id_bystander,omitempty"`
 	NBystanders   int        `json:"nbystanders"`
 	BystanderOps  int        `json:"bystander_ops"`
 	FinalWaitS    int        `json:"final_wait_s"`
@@ -98,6 +101,12 @@ func genDisconnect(prop string, seed uint64, tier string) *Scenario {
 		vc.NQueued = vc.Chain + 1
 		vc.CloseAtMs = 300 + ch.Intn(900)
 		vc.CloseMode = []string{"client", "client", "garbage", "server_reset"}[ch.Intn(4)]
+	}
+	if z := ssched.Sub(seed, "zeroid"); z.Intn(4) == 0 {
+		body.ZeroIdBystander = true
+		if body.NBystanders == 0 {
+			body.NBystanders = 1
+		}
 	}
 	if a := ssched.Sub(seed, "admin"); a.Intn(4) == 0 {
 		// drawn from a generator of its own: text victims open their session inside a binary connection
@@ -225,7 +234,11 @@ func runDisconnect(w *World) {
 		}
 		if announce != 0 {
 			clientIdOfConn[cid] = announce
-			ic := protocol.NewInitCommand(dcClientId(announce))
+			id := dcClientId(announce)
+			if announce < 0 {
+				id = [16]byte{}
+			}
+			ic := protocol.NewInitCommand(id)
 			buf := make([]byte, 64)
 			_ = ic.Encode(buf)
 			if _, err := c.conn.Write(buf); err != nil {
@@ -540,7 +553,12 @@ func runDisconnect(w *World) {
 			total++
 			ssched.SpawnOn(0, fmt.Sprintf("bystander%d", b), func() {
 				defer func() { fin++ }()
-				c, cid, err := newConn(0)
+				announce := 0
+				if b == 0 && body.ZeroIdBystander {
+					announce = -1
+					w.probe("zero_id_bystanders")
+				}
+				c, cid, err := newConn(announce)
 				if err != nil {
 					return
 				}
@@ -617,7 +635,13 @@ func runDisconnect(w *World) {
 				if rep.Recycled {
 					continue
 				}
-				if clientIdOfConn[rep.Conn] != 0 {
+				if a := clientIdOfConn[rep.Conn]; a != 0 {
+					// a connection that announced a client id receives the replies of closed connections
+					// that had announced the same id, and of nobody else
+					if o := h.reqs[rep.StrayRid]; o != nil && clientIdOfConn[o.Client] != a {
+						w.violate("C18", "reply_to_unrelated_client", "connection %d, which announced client id %d, received the reply (result %d) to request %s of connection %d, which had announced %d (0: none; -1: the all-zero id)", rep.Conn, a, rep.Result, o, o.Client, clientIdOfConn[o.Client])
+						continue
+					}
 					w.probe("replies_rerouted_to_same_client_id")
 					continue
 				}
